@@ -119,7 +119,7 @@ CHECKS = {
         note="Bounded model (1 base worldline + 1 fork child, history <= 2). Traces are seeded samples (quick ~3.4k reads, thorough ~31k reads). Only receipt_correlation_full_scan_count is masked in fingerprints. Recorded outputs are imported because engine rules do not emit. Finding F6 (optic provenance ref commit not checked) fixed in d7948ba.",
         design="9.4 C16"),
     "C17": dict(
-        technique="TLC model checking of ExtAction.tla/MC_C17.tla (lifecycle x durable log x crash/fault points, 14 invariants) + spec->impl replay of every bounded behaviour into the real ExternalActionCoordinatorV1 over a fault-injecting WalStorePort + model-derived root-digest relation + trace validation (ExtActionTrace.tla) of seeded random runs + size-boundary leg: the same behaviours replayed with the model budget Bound read as the protocol ceiling (1 MiB results)",
+        technique="TLC model checking of ExtAction.tla/MC_C17.tla (lifecycle x durable log x crash/fault points, 14 invariants) + spec->impl replay of every bounded behaviour into the real ExternalActionCoordinatorV1 over a fault-injecting WalStorePort + model-derived root-digest relation + trace validation (ExtActionTrace.tla) of seeded random runs + size-boundary leg: the same behaviours replayed with the model budget Bound read as the protocol ceiling (1 MiB results) + filesystem leg: TLC over ExtActionFs.tla/MC_C17fs.tla (byte-level log, crash keeping any byte prefix of the transaction in flight, scan / repair / recover / continue) replayed as real processes over the real FilesystemWalStore with the segment cut at the real byte, plus byte sweeps of scripted lifecycles",
         text="ExtAction.tla models per request id the posture none/requested/claimed/settled, the durable log of frames and commit markers with an unsynced tail, the volatile coordinator (index, incremental root, WAL continuation, ready flag) and Record/Claim/Settle/Retry/Observe with every rejection reason of external_action.rs, each durable step as Call; AppendFrame; FlushCommit; Return with a store fault before/after effect at every append/flush, a crash at every frame, and Recover. TLC checks lifecycle-prefix, one-grant, exact-attempt/bounds, durable-before-return, "
              "RecoveredIndex=LiveIndex, RecoveredRoot=IncrementalRoot, retry-from-retained and no-step-repeated on every state, and exports every behaviour of the bounded models; the harness replays each into the real coordinator over the real InMemoryWalStore behind a WalStorePort that fails or unwinds at the named store call, and after EVERY step decides the property on the real outcome (recovered coordinator == live coordinator incl. root_digest, <=1 distinct claim grant, settlement lawful against the durable claim, returned grant's commit flushed, "
              "retry == retained settlement with no store call, commits == lifecycle stages) and compares class/postures/grants/tail with the model. Root digests are abstract in the model and decided as equal index content <=> equal real digest over all behaviours. Long random interleavings over 12 request ids are covered by trace validation.",
